@@ -14,6 +14,7 @@ inductive CaseState where
   | idle
   | skip                                   -- after a mismatch: ignore the rest of the case
   | window (w : Window Nat)
+  | action
   | methodNew (name : String) (params : List String)
   | method (name : String) (params : List String) (st : MState) (ctx : Ctx) (prevLeaves : List String)
       (lstepOnly : Bool) (spec : SpecSt)
@@ -172,10 +173,11 @@ def step (d : Drv) (line : String) : Drv × Option String :=
   | "C" :: id :: comp :: _params =>
     let cs := match comp, _params with
       | "window", _ => CaseState.window Window.empty
+      | "action", _ => CaseState.action
       | "method", name :: ps => CaseState.methodNew name ps
       | _, _ => CaseState.idle
     ({ d with cs := cs, caseId := id, comp := comp, sub := _params.headD "", cases := d.cases + 1, caseBad := false },
-      if comp == "window" || comp == "method" then none else some s!"UNKNOWN-COMPONENT case={id} comp={comp}")
+      if comp == "window" || comp == "method" || comp == "action" then none else some s!"UNKNOWN-COMPONENT case={id} comp={comp}")
   | ["E"] => ({ d with cs := .idle }, none)
   | _ =>
     match d.cs with
@@ -183,6 +185,19 @@ def step (d : Drv) (line : String) : Drv × Option String :=
     | .skip => (d, none)
     | .methodNew _ _ => stepMethod d line
     | .method _ _ _ _ _ _ _ => stepMethod d line
+    | .action =>
+      let rust := unwords res
+      let (ok, model) := actionAgree op rust
+      let d := { d with ops := d.ops + 1 }
+      if ok then
+        match actionLaw op res with
+        | none => (d, none)
+        | some law =>
+          let d := { d with mism := d.mism + 1, badCases := if d.caseBad then d.badCases else d.badCases + 1, caseBad := true }
+          (d, some s!"MISMATCH case={d.caseId} comp={d.comp} sub={law} class=law line={d.lineNo} op=\"{unwords op}\" rust=\"{rust}\" model=\"(law violated by the implementation's own results)\"")
+      else
+        let d := { d with mism := d.mism + 1, badCases := if d.caseBad then d.badCases else d.badCases + 1, caseBad := true }
+        (d, some s!"MISMATCH case={d.caseId} comp={d.comp} sub={op.headD ""} class=exact line={d.lineNo} op=\"{unwords op}\" rust=\"{rust}\" model=\"{model}\"")
     | .window w =>
       let (w', model) := windowOp d.P w op
       let rust := unwords res
